@@ -167,6 +167,7 @@ var (
 	// A regexp to extract index parts.
 	reIdxParts = regexp.MustCompile("(?is)ON\\s+[\"`]*(?:\\w+)[\"`]*\\s*\\((.+?)\\)(?:\\s+|--[^\\n]*(?:\\n|$)|/\\*.*?\\*/)*(WHERE\\s+.+)?$")
 	reIdxDesc  = regexp.MustCompile("(?i)\\s+DESC\\s*$")
+	reIdxAsc   = regexp.MustCompile("(?i)\\s+ASC\\s*$")
 	// A regexp to extract the predicate of a partial index: the WHERE keyword (in any
 	// case) follows the closing parenthesis of the index parts, possibly after comments.
 	// Searching for "WHERE" alone also matches identifiers that contain it, and misses
@@ -223,11 +224,13 @@ func (i *inspect) indexInfo(ctx context.Context, t *schema.Table, idx *schema.In
 			return nil
 		}
 		if p.X != nil {
-			// Remove any extra spaces and the "DESC" clause
-			// in case the key-part is descending.
+			// Remove any extra spaces and the "DESC" clause in case the
+			// key-part is descending, or an explicit "ASC" clause otherwise.
 			kx := strings.TrimSpace(x[:j+1])
 			if p.Desc {
 				kx = reIdxDesc.ReplaceAllString(kx, "")
+			} else {
+				kx = reIdxAsc.ReplaceAllString(kx, "")
 			}
 			p.X.(*schema.RawExpr).X = kx
 		}
